@@ -31,6 +31,35 @@ func runC17(c *Ctx) {
 	c17R3(c)
 	c17R4(c)
 	c17R5(c)
+	c17R6(c)
+}
+
+// c17R6: one pipeline that cannot be resumed does not keep the others stopped.
+func c17R6(c *Ctx) {
+	r := c.R.Rule("R6", "K3 every stored pipeline is considered at boot: in both lifecycle services' Init no return lies behind the failure edge of the per-pipeline Start (the loop goes on to the remaining pipelines)", 2)
+	for _, rel := range []string{pLife, pLife2} {
+		fn := c.SSA(r, rel, "(*Service).Init")
+		start := c.Fn(r, rel, "(*Service).Start")
+		if fn == nil || start == nil {
+			continue
+		}
+		calls := kit.CallsTo(fn, Set(start))
+		if len(calls) == 0 {
+			c.R.Fail(r, rel+".Init: resumes pipelines", c.Pos(fn.Pos()), "no Start call in Init")
+			continue
+		}
+		for _, call := range calls {
+			bad := false
+			for _, e := range kit.FailEdges(call) {
+				for _, ret := range kit.Returns(fn) {
+					if ret.Block() == e.To || e.To.Dominates(ret.Block()) {
+						bad = true
+					}
+				}
+			}
+			c.R.Check(!bad, r, rel+".Init: a failed Start does not end the resume loop", c.Pos(call.Pos()), "ok", "Init returns from inside the failure branch of a pipeline's Start: the pipelines after it in the (random) iteration order are never resumed, and the caller only logs Init's error", true)
+		}
+	}
 }
 
 // litKeys returns the keys of the first composite literal of type T inside function decl.
